@@ -232,8 +232,13 @@ fn primary(pf: &[&'static str]) -> &'static str {
 fn primary_with_signature(pf: &[&'static str]) -> String {
     let p = primary(pf);
     if p == "same-key-object-fields-with-variable-conditional-children" {
+        // the known defect loses the conditions of every occurrence after the first one; a failure in
+        // which only the first occurrence has variable-conditional children is a different defect
         let sig = LAST_SIG.with(|s| s.borrow().clone());
-        format!("{p}{sig}")
+        let occ: Vec<&str> = sig.split('[').filter(|x| !x.is_empty()).collect();
+        let cond = |o: &str| o.split_once(':').is_some_and(|(_, ch)| ch.chars().zip(ch.chars().skip(1)).any(|(a, b)| (a == 's' || a == 'i') && b.is_ascii_digit()));
+        let later = occ.iter().skip(1).any(|o| cond(o));
+        format!("{p}:{}", if later { "a-later-occurrence-is-conditional" } else { "only-the-first-occurrence-is-conditional" })
     } else {
         p.to_string()
     }
@@ -446,9 +451,49 @@ fn path_features(doc: &ExecDoc, root: &SelSet, path: &[String]) -> Vec<&'static 
             }
         }
         if next.is_empty() {
+            sets = vec![];
             break;
         }
         sets = next;
+    }
+    // the failure is located at the object the path ends in: a group of same-key object selections
+    // directly inside it is part of the failing object's shape
+    if !tags.iter().any(|t| t.starts_with("same-key")) && !sets.is_empty() {
+        let mut keys: BTreeSet<String> = BTreeSet::new();
+        fn keys_of<'a>(s: &'a SelSet, frags: &BTreeMap<String, (&'a Name, &'a SelSet)>, out: &mut BTreeSet<String>, seen: &mut BTreeSet<String>) {
+            for it in &s.items {
+                match it {
+                    Sel::Field { alias, name, .. } => {
+                        out.insert(alias.as_ref().unwrap_or(name).s.clone());
+                    }
+                    Sel::Inline { sel, .. } => keys_of(sel, frags, out, seen),
+                    Sel::Spread { name, .. } => {
+                        if seen.insert(name.s.clone())
+                            && let Some((_, fs)) = frags.get(&name.s)
+                        {
+                            keys_of(fs, frags, out, seen);
+                        }
+                    }
+                }
+            }
+        }
+        for s in &sets {
+            keys_of(s, &frags, &mut keys, &mut BTreeSet::new());
+        }
+        for key in keys {
+            let mut fields: Vec<&Sel> = vec![];
+            let mut via = false;
+            for s in &sets {
+                gather(s, &key, &frags, &mut fields, &mut via, &mut BTreeSet::new());
+            }
+            let objs: Vec<&SelSet> = fields.iter().filter_map(|f| if let Sel::Field { sel: Some(x), .. } = f { Some(x) } else { None }).collect();
+            if fields.len() > 1 && !objs.is_empty() && objs.iter().any(|x| conditional_children(x)) {
+                tags.insert("same-key-object-fields-with-variable-conditional-children");
+                let sig = merge_signature(&fields);
+                LAST_SIG.with(|s| *s.borrow_mut() = sig);
+                break;
+            }
+        }
     }
     tags.into_iter().collect()
 }
@@ -586,7 +631,7 @@ fn check_doc(prop: &str, rep: &Reporter, sch: &Sch, doc: &ExecDoc, text: &str, c
                                     rep.report(Violation {
                                         key: format!("not_admitted[{ftag}]"),
                                         what: format!("a spec-conformant response of the {what} is not a member of {alias}"),
-                                        case: case(json!({"features_on_failing_path": pf, "failing_path": path, "response": r.show(), "variables": sigma, "parent_object": parent, "type": loaded.world.canon(&ty, 6).map(|t| show_t(&t)).unwrap_or_default()})),
+                                        case: case(json!({"features_on_failing_path": pf, "merge_signature": LAST_SIG.with(|s| s.borrow().clone()), "failing_path": path, "response": r.show(), "variables": sigma, "parent_object": parent, "type": loaded.world.canon(&ty, 6).map(|t| show_t(&t)).unwrap_or_default()})),
                                     });
                                 }
                                 Err(e) => rep.report(Violation { key: "machinery.member_eval".into(), what: e, case: case(json!({"dts": loaded.dts})) }),
@@ -625,7 +670,7 @@ fn check_doc(prop: &str, rep: &Reporter, sch: &Sch, doc: &ExecDoc, text: &str, c
                     rep.report(Violation {
                         key: format!("admits_impossible[{ftag}]"),
                         what: format!("{alias} admits a value no execution of the {what} can return"),
-                        case: case(json!({"features_on_failing_path": pf, "failing_path": path, "value": m.show(), "type": loaded.world.canon(&ty, 6).map(|t| show_t(&t)).unwrap_or_default()})),
+                        case: case(json!({"features_on_failing_path": pf, "merge_signature": LAST_SIG.with(|s| s.borrow().clone()), "failing_path": path, "value": m.show(), "type": loaded.world.canon(&ty, 6).map(|t| show_t(&t)).unwrap_or_default()})),
                     });
                     break;
                 }
@@ -635,6 +680,58 @@ fn check_doc(prop: &str, rep: &Reporter, sch: &Sch, doc: &ExecDoc, text: &str, c
             }
         }
     }
+}
+
+/// Exhaustive small families around response-key merging (text form; variables are declared as used).
+pub fn same_key_family() -> Vec<String> {
+    let conds = ["", " @skip(if: $b1)", " @include(if: $b1)", " @skip(if: $b2)"];
+    let wrap = |body: &str| {
+        let mut vars = vec![];
+        if body.contains("$b1") {
+            vars.push("$b1: Boolean!");
+        }
+        if body.contains("$b2") {
+            vars.push("$b2: Boolean!");
+        }
+        let vd = if vars.is_empty() { String::new() } else { format!("({})", vars.join(", ")) };
+        format!("query Q{vd} {{ {body} }}\n")
+    };
+    // occurrence bodies of an object field: one or two leaf children, each with a condition
+    let mut bodies: Vec<String> = vec![];
+    for c1 in conds {
+        bodies.push(format!("id{c1}"));
+        bodies.push(format!("name{c1}"));
+        for c2 in conds {
+            bodies.push(format!("id{c1} name{c2}"));
+        }
+    }
+    let mut out = vec![];
+    for a in &bodies {
+        for b in &bodies {
+            out.push(wrap(&format!("u {{ {a} }} u {{ {b} }}")));
+        }
+    }
+    // the same through a list of objects and through a fragment spread
+    for a in &bodies {
+        for b in bodies.iter().take(8) {
+            out.push(wrap(&format!("maybe {{ {a} }} maybe {{ {b} }}")));
+            out.push(format!("{}fragment F on User {{ best {{ {b} }} }}\n", wrap(&format!("u {{ best {{ {a} }} ...F }}"))));
+        }
+    }
+    // leaf selections of one key under wrappers
+    let wrappers = ["id{c}", "... on User {{ id{c} }}", "... {{ id{c} }}", "... on Node{c} {{ id }}"];
+    let mut leafs = vec![];
+    for w in wrappers {
+        for c in conds {
+            leafs.push(w.replace("{c}", c).replace("{{", "{").replace("}}", "}"));
+        }
+    }
+    for a in &leafs {
+        for b in &leafs {
+            out.push(wrap(&format!("u {{ {a} {b} }}")));
+        }
+    }
+    out
 }
 
 pub fn run(args: &RunArgs, prop: &str) -> i32 {
@@ -683,6 +780,31 @@ pub fn run(args: &RunArgs, prop: &str) -> i32 {
             check_doc(prop, &rep, &sch, &doc, &text, c, &cnt, data_dev);
         },
     );
+    // the same-response-key families: every pair of selections of one object field (children drawn
+    // from two leaves x four conditions), and every pair of selections of one leaf under the wrappers
+    // {plain, typed inline fragment, untyped inline fragment} x four conditions
+    let fam = same_key_family();
+    let fam_checked = AtomicU64::new(0);
+    crate::explore::par_for(fam.len(), args.threads, |i| {
+        let text = &fam[i];
+        if !distinct.insert(fnv(text.as_bytes())) {
+            return;
+        }
+        let Ok(doc) = crate::rparse::parse_exec(text) else { return };
+        cnt.docs.fetch_add(1, Ordering::Relaxed);
+        if !valid_op::validate(&sch, &doc).is_empty() {
+            cnt.skipped_invalid.fetch_add(1, Ordering::Relaxed);
+            return;
+        }
+        if !matches!(subject_check(text), Ok(Ok(()))) {
+            cnt.skipped_rejected.fetch_add(1, Ordering::Relaxed);
+            return;
+        }
+        fam_checked.fetch_add(1, Ordering::Relaxed);
+        let dv = Dev::default();
+        let c = Chooser::new(&dv);
+        check_doc(prop, &rep, &sch, &doc, text, &c, &cnt, data_dev);
+    });
     let checked = cnt.checked_docs.load(Ordering::Relaxed);
     let work = if prop == "C01" { cnt.responses.load(Ordering::Relaxed) } else { cnt.members.load(Ordering::Relaxed) };
     let cov = json!({
@@ -696,6 +818,8 @@ pub fn run(args: &RunArgs, prop: &str) -> i32 {
         "bounds": {"document_deviations": dev, "data_deviations": data_dev, "selection_depth": 2},
         "explorer": stats_json(&stats),
         "documents_checked": checked,
+        "same_key_family_documents": fam.len(),
+        "same_key_family_documents_checked": fam_checked.load(Ordering::Relaxed),
         "skipped_not_spec_valid": cnt.skipped_invalid.load(Ordering::Relaxed),
         "skipped_rejected_by_check(C04's business)": cnt.skipped_rejected.load(Ordering::Relaxed),
         "responses_tested": cnt.responses.load(Ordering::Relaxed),
